@@ -63,8 +63,8 @@ def call(g, act, args):
         pe, pr, en, cache, override = args
         return g.to_geodataframe(periodic_elements=pe, projection=G.projection(pr), engine=en, cache=cache, override=override)
     if act == "DataToGdf":
-        pe, en, col = args
-        return _data_array(g, col).to_geodataframe(periodic_elements=pe, engine=en)
+        pe, en, col, cache = args
+        return _data_array(g, col).to_geodataframe(periodic_elements=pe, engine=en, cache=cache)
     if act == "ToPoly":
         pe, pr, cache, override = args
         return g.to_polycollection(periodic_elements=pe, projection=G.projection(pr), cache=cache, override=override)
